@@ -243,6 +243,11 @@ def execute(case, ctx):
 
             raise Violation('C12.lock_left', f'{ap.desc} raised {exc!r} and left a modification registry entry', sig)
 
+        if src0.rstrip(' \t\n').endswith('\\'):
+            ctx.count('state_ends_with_continuation(C01-dangling-continuation-eof family, follow-up edit not attempted)')  # anything appended would be joined to the dangling line
+
+            continue
+
         # the next valid edit succeeds and the tree still satisfies C01
 
         try:
